@@ -38,7 +38,14 @@ def case_iterate_local(log, order):
             b3 = SR.var("b3")
             bet = bet + [b3 * bet[0]]
         gs = singlet_gammas(order, "general")
-        E = sg.eko_iterate(gs, a1, a0, bet, (order, 0), 1)
+        # exp_matrix_2D by its contract (the matrix exponential, decided in C23) as a power series in the step: the
+        # eigen-decomposition of a series-valued matrix is what made this case too deep for the quick tier
+        saved = sg.ad
+        sg.ad = AdSeries(saved)
+        try:
+            E = sg.eko_iterate(gs, a1, a0, bet, (order, 0), 1)
+        finally:
+            sg.ad = saved
         # exact series: dE/deps = a0 * gamma(a)/beta(a) E at a = a0 (1+eps)
         den = sum(b * a1 ** (k + 2) for k, b in enumerate(bet))
         inv = a0 / den
@@ -385,7 +392,7 @@ def main():
     chk.bounds = ["eko_iterate: one step, orders 2-3 (quick) and 4 (thorough), general non-commuting symbolic 2x2 gamma, symbolic beta",
                   "u_vec: K=4 (quick), 6 (thorough), fully symbolic R_k; r_vec: orders 2-4, max_order n..n+2, exact and expanded fill",
                   "QED step: orders (1,1),(2,1) (quick), (2,2),(3,2) (thorough); dim 4 and dim 2; couplings follow symbolic smooth RGEs; series through h^2"]
-    chk.stubs = ["ekore.anomalous_dimensions.exp_matrix (numpy.linalg.eig) -> defining power series of the matrix exponential",
+    chk.stubs = ["ekore.anomalous_dimensions.exp_matrix (numpy.linalg.eig) and exp_matrix_2D (in the series-valued iterate cases) -> defining power series of the matrix exponential (C23 decides that both compute it)",
                  "eko.beta inside singlet_qed -> symbolic coefficients"]
     chk.out_of_claim = ["the limit n->infinity, measured error constants, floating point"]
     for o in ((2, 3, 4) if thorough else (2, 3)):
